@@ -24,7 +24,7 @@ Lines  == 1..NLines
 Codes  == {"A", "B", "PRS"}                 \* two lint rules and the parser's own code
 Kinds  == {"plain", "disable", "enable"}
 \* rules = {} encodes "no rule list" (noqa / noqa: disable=all): covers everything
-RuleSets == {{}, {"A"}, {"B"}, {"A", "B"}, {"PRS"}}
+RuleSets == {{}, {"A"}, {"B"}, {"A", "B"}, {"PRS"}, {"A", "PRS"}, {"B", "PRS"}}
 Dir    == [line : Lines, kind : Kinds, rules : RuleSets]
 Viol   == [line : Lines, code : Codes]
 
